@@ -114,6 +114,10 @@ var badReturnPrograms = []prog{
 	mkProg("selfloop", "S:1:R,1,2:2:0:0:0 S:2:B,R,1,2,R,1,3:2,3:0:0:0"),
 	mkProg("terminal-return", "S:1:R,1,3:2,3:0:0:0 S:2:R,1,3:3:0:0:0"),
 	mkProg("moderr", "S:1:E,1,11:2:0:0:0"),
+	mkProg("err-with-status-step", "S:1:F,0,0,G,1,2,11:2:0:0:0 S:2:R,1,3:3:0:0:0"),
+	mkProg("err-with-status-cb", "S:1:R,1,2:2:0:0:0 C:2:G,1,3,12:3"),
+	mkProg("err-with-status-timeout", "S:1:R,1,2:2:0:0:0 T:2:10:G,1,3,13:3:0"),
+	mkProg("err-with-status-timeout-pause", "S:1:R,1,2:2:0:0:0 T:2:10:G,1,3,13:3:2"),
 	mkProg("modskip", "S:1:R,1,0:2:0:0:0 C:1:R,1,2:2 S:2:R,0,3:3:0:0:0"),
 	mkProg("modpause", "S:1:P,1:2:0:0:0 S:2:R,1,3:3:0:0:0"),
 	mkProg("modcancel", "S:1:X,1:2:0:0:0"),
